@@ -83,20 +83,25 @@ void h_decode_size(void) {
 }
 
 #ifndef SNP_MAX_IN
-#define SNP_MAX_IN 8
-#define SNP_MAX_OUT 16
+#define SNP_MAX_IN 6
+#define SNP_MAX_OUT 8
 #endif
-void h_decode_blocks(void) {
-  IN_SIZE(in_zn); IN_SIZE(in_n); IN_BUF(buf, in_n); SNAP_BUF(buf, in_n);
-  uint8_t *out;
-  ASSUME(in_n <= SNP_MAX_IN && in_zn <= SNP_MAX_OUT); /* BOUNDED: see units/snp.json */
-  out = malloc(in_zn); /* exactly zn bytes, zp at the start of the object: any write outside [zp, zp+zn) and any back-reference before zp is out of bounds */
-  int r;
-  ASSUME(out != NULL);
-  r = decode_blocks(out, in_zn, buf, in_n);
+/* BOUNDED stand-in (see units/snp.json).  Fixed-size backing arrays keep the
+ * SAT encoding small; the output window [zp, zp+zn) is placed either at the
+ * END of its array (a write or read past zp+zn is out of bounds) or at the
+ * START (a back-reference before zp is out of bounds); the input window
+ * always ends at the end of its array (an over-read is out of bounds). */
+static void snp_blocks_harness(size_t in_zn, size_t in_n, int at_end) {
+  uint8_t inb[SNP_MAX_IN + 1], outb[SNP_MAX_OUT + 1];
+  uint8_t *out; const uint8_t *in; int r;
+  ASSUME(in_n <= SNP_MAX_IN && in_zn <= SNP_MAX_OUT);
+  in = inb + (SNP_MAX_IN + 1 - in_n);
+  out = at_end ? outb + (SNP_MAX_OUT + 1 - in_zn) : outb;
+  r = decode_blocks(out, in_zn, in, in_n);
   CHECK(r == 0 || r == 1, "decode_blocks: returns 0 or 1");
-  CANARY();
 }
+void h_decode_blocks(void) { IN_SIZE(in_zn); IN_SIZE(in_n); snp_blocks_harness(in_zn, in_n, 1); CANARY(); }
+void h_decode_blocks_lo(void) { IN_SIZE(in_zn); IN_SIZE(in_n); snp_blocks_harness(in_zn, in_n, 0); CANARY(); }
 
 void h_decode(void) {
   IN_SIZE(in_n); IN_BUF(buf, in_n); SNAP_BUF(buf, in_n);
